@@ -194,7 +194,6 @@ pub struct CodegenContext {
     current_scope: IdentifierPath,
     current_scope_nx: SymbolIndex,
 
-    next_macro_scope_id: usize,
 
     test_elements: Vec<TestElement>,
 
@@ -253,7 +252,6 @@ impl CodegenContext {
             undefined: HashSet::new(),
             current_scope: IdentifierPath::empty(),
             current_scope_nx: SymbolIndex::new(0),
-            next_macro_scope_id: 0,
             test_elements: vec![],
             source_map: SourceMap::default(),
             import_stack: vec![],
@@ -340,7 +338,6 @@ impl CodegenContext {
 
     fn next_pass(&mut self) {
         self.pass_idx += 1;
-        self.next_macro_scope_id = 0;
 
         log::trace!("\n* NEXT PASS ({}) *", self.pass_idx);
         self.segments.values_mut().for_each(|s| s.reset());
@@ -1073,9 +1070,12 @@ impl CodegenContext {
                         .expect_args(name.span, args.len(), def.args.len())
                         .map_err(|e| self.map_evaluation_error(e))?;
 
+                    // The scope is named after the place of the invocation, which is the same in every pass. (A running
+                    // number is not: an invocation that is only reached once a forward referenced `.if` condition is
+                    // known shifts the numbers of all later ones, which then inherit each other's symbols.) An invocation
+                    // that is reached several times per pass is reached from different parent scopes.
                     let macro_scope =
-                        Identifier::new(format!("$macro_{}", self.next_macro_scope_id));
-                    self.next_macro_scope_id += 1;
+                        Identifier::new(format!("$macro_{}", name.span.low().as_usize()));
 
                     // The arguments are evaluated where the macro is invoked and not inside the macro's own scope,
                     // since the names of the parameters would shadow the names the arguments refer to there
